@@ -272,7 +272,7 @@ def main():
                     y = (dst.nodal_data if where == 'nodal' else dst.elemental_data)[name2 + '_r0'].data
                     if t.get('repeat', 1) > 1:
                         y2 = (dst.nodal_data if where == 'nodal' else dst.elemental_data)[name2 + '_r1'].data
-                        r['repeat_same'] = bool(np.array_equal(np.asarray(y), np.asarray(y2)))
+                        r['repeat_same'] = bool(np.array_equal(np.asarray(y, float), np.asarray(y2, float), equal_nan=True))
                     xs = (src.nodal_data if where == 'nodal' else src.elemental_data)[name1].data
                 r['n_src'] = n_src
                 r['x_used'] = [ratio(v) for v in np.asarray(x_before, float).ravel()]
